@@ -112,6 +112,21 @@ struct St<'a> {
     ctx: serde_json::Value,
     v1: bool,
     redirect: bool,
+    /// (proxy, range) -> furthest migration phase this proxy's task was seen in (the handshake is not undone
+    /// by a later metadata delivery that carries the same migration)
+    furthest: BTreeMap<(String, String), u8>,
+}
+
+fn phase_rank(s: &str) -> u8 {
+    match s {
+        "PRE_CHECK" => 0,
+        "PRE_BLOCKING" => 1,
+        "PRE_SWITCH" => 2,
+        "SCANNING" => 3,
+        "FINAL_SWITCH" => 4,
+        "SWITCH_COMMITTED" => 5,
+        _ => 1,
+    }
 }
 
 impl<'a> St<'a> {
@@ -199,16 +214,21 @@ impl<'a> St<'a> {
                         let dst = &m.meta.dst_proxy_address;
                         if p == src || p == dst {
                             let local_state = states.get(&rk).cloned();
-                            let want = match local_state.as_deref() {
-                                Some("PRE_CHECK") => src,
-                                Some(_) => dst,
+                            let now = match local_state.as_deref() {
+                                Some(st) => phase_rank(st),
                                 None => {
                                     mism.get_or_insert((slot, "a local task".to_string(), adv.clone(), "no local migration task".to_string()));
                                     continue;
                                 }
                             };
+                            let key = (p.clone(), rk.clone());
+                            let before = self.furthest.get(&key).copied().unwrap_or(0);
+                            self.furthest.insert(key, before.max(now));
+                            // "at its source before the switch handshake and at its destination afterwards"
+                            let want = if before.max(now) == 0 { src } else { dst };
                             if adv != want {
-                                mism.get_or_insert((slot, want.clone(), adv.clone(), format!("local task state {:?}", local_state)));
+                                let why = if now < before { format!("backwards: local task state {:?} although the task had reached phase {} before", local_state, before) } else { format!("local task state {:?}", local_state) };
+                                mism.get_or_insert((slot, want.clone(), adv.clone(), why));
                             }
                         } else if adv != src && adv != dst {
                             mism.get_or_insert((slot, format!("{} or {}", src, dst), adv.clone(), "bystander".to_string()));
@@ -310,6 +330,7 @@ pub async fn run_scenario(rep: &mut Report, sub_seed: u64, table: Arc<Vec<Vec<u8
         ctx: ctx.clone(),
         v1: opts.proxy.nodes_version_v1,
         redirect: opts.proxy.active_redirection,
+        furthest: BTreeMap::new(),
     };
     st.rep.count("scenarios", 1);
     let none = BTreeSet::new();
